@@ -62,3 +62,12 @@ Example C16_example :
     ([(10, (0, 0, 0, 0, 0))], true);
     ([(1, (1, 0, 0, 1, 0)); (2, (2, 0, 0, 1, 0))], true)])%nat.
 Proof. vm_compute. reflexivity. Qed.
+
+(* what a failed or aborted call leaves in the field models: nothing.  After a call that ends with SolveFailure, with an
+   exception while it is being prepared, or with an exception from the user's post_randomize, no field model is flagged as
+   solved-for and none holds a node of the dead solver instance (Rand/Flags.v) - whatever operations came before *)
+From PV Require Rand.Flags Rand.FlagsProofs.
+Theorem C16_failed_call_leaves_no_flag_or_solver_node : forall l subtree r setfields e,
+  Rand.Flags.busy (Rand.Flags.run [] (l ++ [Rand.Flags.OCall subtree r setfields e])) = false.
+Proof. intros l subtree r setfields e. exact (Rand.FlagsProofs.never_busy_between_calls (l ++ [Rand.Flags.OCall subtree r setfields e])). Qed.
+Print Assumptions C16_failed_call_leaves_no_flag_or_solver_node.
